@@ -24,6 +24,7 @@ import (
 	"fmt"
 	"os"
 	"path/filepath"
+	"regexp"
 	"strconv"
 	"strings"
 	"sync"
@@ -96,11 +97,44 @@ func c13Containing(t []c13FakeSym, a uint64) *c13FakeSym {
 	return nil
 }
 
-// nm --numeric-sort --print-size --format=posix <file>
+// c13FakeFmt reads the output-format adversaries requested for file.
+func c13FakeFmt(file string) map[string]bool {
+	m := map[string]bool{}
+	b, _ := os.ReadFile(file + ".fmt")
+	for _, f := range strings.Fields(string(b)) {
+		m[f] = true
+	}
+	return m
+}
+
+// nm --numeric-sort --print-size --format=posix <file>   (name type addr size)
+// nm -n <file>                                           (addr type name)
 func c13FakeNMMain() {
+	file := os.Args[len(os.Args)-1]
+	ft := c13FakeFmt(file)
+	nl := "\n"
+	if ft["crlf"] {
+		nl = "\r\n"
+	}
+	bsd := len(os.Args) > 1 && os.Args[1] == "-n"
+	var lines []string
+	for i, s := range c13ReadSyms(file) {
+		if ft["blank"] && i%3 == 1 {
+			lines = append(lines, "")
+		}
+		if bsd {
+			lines = append(lines, fmt.Sprintf("%016x %s %s", s.start, s.typ, s.nmName))
+		} else {
+			lines = append(lines, fmt.Sprintf("%s %s %x %x", s.nmName, s.typ, s.start, s.size))
+		}
+	}
+	if ft["blank"] {
+		lines = append(lines, "")
+	}
 	w := bufio.NewWriter(os.Stdout)
-	for _, s := range c13ReadSyms(os.Args[len(os.Args)-1]) {
-		fmt.Fprintf(w, "%s %s %x %x\n", s.nmName, s.typ, s.start, s.size)
+	w.WriteString(strings.Join(lines, nl))
+	if !ft["nofinalnl"] {
+		w.WriteString(nl)
 	}
 	w.Flush()
 }
@@ -115,6 +149,14 @@ func c13FakeAddr2lineMain() {
 		}
 	}
 	t := c13ReadSyms(file)
+	ft := c13FakeFmt(file)
+	nl, src := "\n", "src.c"
+	if ft["crlf"] {
+		nl = "\r\n"
+	}
+	if ft["longfile"] {
+		src = c13Expand("/very/long/path/", 70000) + ".c"
+	}
 	in := bufio.NewScanner(os.Stdin)
 	w := bufio.NewWriter(os.Stdout)
 	for in.Scan() {
@@ -123,14 +165,14 @@ func c13FakeAddr2lineMain() {
 			continue
 		}
 		c13FakeDelay()
-		fmt.Fprintf(w, "0x%016x\n", a)
+		fmt.Fprintf(w, "0x%016x%s", a, nl)
 		if s := c13Containing(t, a); s != nil {
 			if s.inlined != "-" {
-				fmt.Fprintf(w, "%s\ninl.h:7\n", s.inlined)
+				fmt.Fprintf(w, "%s%sinl.h:7%s", s.inlined, nl, nl)
 			}
-			fmt.Fprintf(w, "%s\nsrc.c:%d\n", s.short, 1+(a-s.start)%50)
+			fmt.Fprintf(w, "%s%s%s:%d%s", s.short, nl, src, 1+(a-s.start)%50, nl)
 		} else {
-			fmt.Fprintf(w, "??\n??:0\n")
+			fmt.Fprintf(w, "??%s??:0%s", nl, nl)
 		}
 		w.Flush()
 	}
@@ -141,6 +183,7 @@ func c13FakeLLVMMain() {
 	in := bufio.NewScanner(os.Stdin)
 	w := bufio.NewWriter(os.Stdout)
 	tabs := map[string][]c13FakeSym{}
+	nl, src := "\n", "src.c"
 	for in.Scan() {
 		f := strings.Fields(in.Text())
 		c13FakeDelay()
@@ -153,14 +196,21 @@ func c13FakeLLVMMain() {
 		if !ok {
 			t = c13ReadSyms(f[1])
 			tabs[f[1]] = t
+			ft := c13FakeFmt(f[1])
+			if ft["crlf"] {
+				nl = "\r\n"
+			}
+			if ft["longfile"] {
+				src = c13Expand("/very/long/path/", 70000) + ".c"
+			}
 		}
 		a, _ := strconv.ParseUint(f[2], 0, 64)
 		s := c13Containing(t, a)
 		if f[0] == "DATA" {
 			if s != nil {
-				fmt.Fprintf(w, "{\"Address\":\"%s\",\"ModuleName\":\"m\",\"Data\":{\"Name\":\"%s\",\"Size\":\"0x%x\",\"Start\":\"0x%x\"}}\n", f[2], s.nmName, s.size, s.start)
+				fmt.Fprintf(w, "{\"Address\":\"%s\",\"ModuleName\":\"m\",\"Data\":{\"Name\":\"%s\",\"Size\":\"0x%x\",\"Start\":\"0x%x\"}}%s", f[2], s.nmName, s.size, s.start, nl)
 			} else {
-				fmt.Fprintf(w, "{\"Address\":\"%s\",\"ModuleName\":\"m\",\"Data\":{\"Name\":\"\",\"Size\":\"0x0\",\"Start\":\"0x0\"}}\n", f[2])
+				fmt.Fprintf(w, "{\"Address\":\"%s\",\"ModuleName\":\"m\",\"Data\":{\"Name\":\"\",\"Size\":\"0x0\",\"Start\":\"0x0\"}}%s", f[2], nl)
 			}
 		} else {
 			syms := ""
@@ -168,9 +218,9 @@ func c13FakeLLVMMain() {
 				if s.inlined != "-" {
 					syms = fmt.Sprintf("{\"Column\":0,\"FileName\":\"inl.h\",\"FunctionName\":\"%s\",\"Line\":7,\"StartLine\":0},", s.inlined)
 				}
-				syms += fmt.Sprintf("{\"Column\":1,\"FileName\":\"src.c\",\"FunctionName\":\"%s\",\"Line\":%d,\"StartLine\":1}", s.nmName, 1+(a-s.start)%50)
+				syms += fmt.Sprintf("{\"Column\":1,\"FileName\":\"%s\",\"FunctionName\":\"%s\",\"Line\":%d,\"StartLine\":1}", src, s.nmName, 1+(a-s.start)%50)
 			}
-			fmt.Fprintf(w, "{\"Address\":\"%s\",\"ModuleName\":\"m\",\"Symbol\":[%s]}\n", f[2], syms)
+			fmt.Fprintf(w, "{\"Address\":\"%s\",\"ModuleName\":\"m\",\"Symbol\":[%s]}%s", f[2], syms, nl)
 		}
 		w.Flush()
 	}
@@ -186,11 +236,58 @@ type c13Func struct {
 	Short   string `json:"short"`   // what addr2line prints
 	Type    string `json:"type"`    // nm type letter (function types only in this stream)
 	Inlined string `json:"inlined"` // "-" or the name of an inlined callee frame
+	// Pad > 0: the names the tools print for this function are stretched (or cut) to exactly Pad
+	// bytes with a deterministic filler — name-length adversary; the replay file stays small
+	Pad int `json:"name_len,omitempty"`
+}
+
+const c13Filler = "abcdefghijklmnopqrstuvwxyz0123456789_"
+
+// c13Expand stretches or cuts base to exactly n bytes (n <= 0: unchanged).
+func c13Expand(base string, n int) string {
+	if n <= 0 {
+		return base
+	}
+	if n <= len(base) {
+		return base[:n]
+	}
+	var sb strings.Builder
+	sb.Grow(n)
+	sb.WriteString(base)
+	for sb.Len() < n {
+		k := n - sb.Len()
+		if k > len(c13Filler) {
+			k = len(c13Filler)
+		}
+		sb.WriteString(c13Filler[:k])
+	}
+	return sb.String()
+}
+
+// the names as the tools print them
+func (f *c13Func) nmN() string { return c13Expand(f.NMName, f.Pad) }
+func (f *c13Func) shortN() string {
+	if f.Pad > 64 {
+		return c13Expand(f.Short, f.Pad-16) // still a very long addr2line line; nm's name is longer
+	}
+	return c13Expand(f.Short, f.Pad)
+}
+
+// c13Abbrev keeps messages readable when names are megabytes long.
+func c13Abbrev(s string) string {
+	if len(s) <= 48 {
+		return fmt.Sprintf("%q", s)
+	}
+	return fmt.Sprintf("%q…(%d bytes)", s[:32], len(s))
 }
 
 type c13Lookup struct {
 	H    int `json:"h"` // index into Biases: which ObjFile
 	Addr hx  `json:"addr"`
+	// Op "" = SourceLine(Addr); "symaddr" = Symbols(<matches nothing>, Addr − bias);
+	// "symrx" = Symbols(Rx, 0)
+	Op string `json:"op,omitempty"`
+	Rx string `json:"rx,omitempty"`
 }
 
 type c13SymCase struct {
@@ -200,6 +297,7 @@ type c13SymCase struct {
 	Span    hx          `json:"span"` // mapping size
 	Biases  []hx        `json:"biases"`
 	Lookups []c13Lookup `json:"lookups"`
+	Fmt     []string    `json:"fmt,omitempty"`        // output-format adversaries of the fake tools: crlf, nofinalnl, blank, longfile
 	Conc    int         `json:"goroutines,omitempty"` // > 1: lookups after the per-handle warm-up are issued concurrently
 }
 
@@ -277,6 +375,63 @@ func genSymCase(r *Rng, mode string) *c13SymCase {
 		}
 		cs.Lookups = append(cs.Lookups, c13Lookup{H: h, Addr: cs.Biases[h] + hx(link)})
 	}
+	// ObjFile.Symbols lookups (each runs `nm -n`): by address and by regexp
+	for k, n := 0, r.Intn(3); k < n; k++ {
+		cs.addSymbolsOp(r)
+	}
+	if r.Chance(25) {
+		all := []string{"crlf", "nofinalnl", "blank", "longfile"}
+		for _, f := range all {
+			if r.Chance(40) {
+				cs.Fmt = append(cs.Fmt, f)
+			}
+		}
+	}
+	return cs
+}
+
+func (cs *c13SymCase) addSymbolsOp(r *Rng) {
+	h := r.Intn(len(cs.Biases))
+	f := cs.Funcs[r.Intn(len(cs.Funcs))]
+	last := cs.Funcs[len(cs.Funcs)-1]
+	switch r.Intn(6) {
+	case 0: // regexp on a name prefix
+		cs.Lookups = append(cs.Lookups, c13Lookup{H: h, Addr: cs.Biases[h], Op: "symrx", Rx: "^" + regexp.QuoteMeta(f.Short)})
+	case 1:
+		cs.Lookups = append(cs.Lookups, c13Lookup{H: h, Addr: cs.Biases[h], Op: "symrx", Rx: []string{"^f[0-4]", "constprop|isra", "_[0-9]+$", "^function", "."}[r.Intn(5)]})
+	case 2: // the last symbol and beyond: the table's tail
+		cs.Lookups = append(cs.Lookups, c13Lookup{H: h, Addr: cs.Biases[h] + last.Start + hx(r.Intn(int(last.Size)+0x100)), Op: "symaddr"})
+	case 3:
+		cs.Lookups = append(cs.Lookups, c13Lookup{H: h, Addr: cs.Biases[h] + f.Start, Op: "symaddr"})
+	default:
+		cs.Lookups = append(cs.Lookups, c13Lookup{H: h, Addr: cs.Biases[h] + f.Start + hx(r.Intn(int(f.Size))), Op: "symaddr"})
+	}
+}
+
+// c13NameLens: symbol-name lengths around the buffer sizes parsers tend to use.
+var c13NameLens = []int{1, 4095, 4096, 65535, 65536, 70000, 1 << 20}
+
+// genLongNameCase: one function in the middle of the table gets a name of exactly n bytes; lookups
+// concentrate on it and on the functions after it, through SourceLine and Symbols.
+func genLongNameCase(r *Rng, mode string, n int, fmts []string) *c13SymCase {
+	var cs *c13SymCase
+	for cs == nil || len(cs.Funcs) < 4 {
+		cs = genSymCase(r, mode)
+	}
+	cs.Fmt = fmts
+	k := 1 + r.Intn(len(cs.Funcs)-2)
+	cs.Funcs[k].Pad = n
+	cs.Lookups = cs.Lookups[:len(cs.Biases)] // the warm-up lookups
+	for i := k; i < len(cs.Funcs); i++ {
+		f := cs.Funcs[i]
+		h := r.Intn(len(cs.Biases))
+		cs.Lookups = append(cs.Lookups,
+			c13Lookup{H: h, Addr: cs.Biases[h] + f.Start + hx(r.Intn(int(f.Size)))},
+			c13Lookup{H: h, Addr: cs.Biases[h] + f.Start + hx(r.Intn(int(f.Size))), Op: "symaddr"})
+	}
+	h := r.Intn(len(cs.Biases))
+	cs.Lookups = append(cs.Lookups, c13Lookup{H: h, Addr: cs.Biases[h], Op: "symrx", Rx: "."},
+		c13Lookup{H: h, Addr: cs.Biases[h], Op: "symrx", Rx: "^" + regexp.QuoteMeta(cs.Funcs[len(cs.Funcs)-1].Short)})
 	return cs
 }
 
@@ -336,10 +491,12 @@ func (s *c13SymEnv) writeObject(e *c13Env, cs *c13SymCase, tag string) string {
 		file = nf
 	}
 	var sb strings.Builder
-	for _, f := range cs.Funcs {
-		fmt.Fprintf(&sb, "%x %x %s %s %s %s\n", uint64(f.Start), uint64(f.Size), f.NMName, f.Short, f.Type, f.Inlined)
+	for i := range cs.Funcs {
+		f := &cs.Funcs[i]
+		fmt.Fprintf(&sb, "%x %x %s %s %s %s\n", uint64(f.Start), uint64(f.Size), f.nmN(), f.shortN(), f.Type, f.Inlined)
 	}
 	os.WriteFile(file+".syms", []byte(sb.String()), 0o644)
+	os.WriteFile(file+".fmt", []byte(strings.Join(cs.Fmt, " ")), 0o644)
 	return file
 }
 
@@ -367,13 +524,13 @@ func (cs *c13SymCase) expect(c *Ctx, bias, x uint64) (fn, inl string, owner *c13
 	switch cs.Mode {
 	case "nm":
 		if nmIdx >= 0 {
-			fn = cs.Funcs[nmIdx].NMName
+			fn = cs.Funcs[nmIdx].nmN()
 		}
 	case "a2l":
 		if owner != nil {
-			fn = owner.Short
-			if nmIdx >= 0 && len(cs.Funcs[nmIdx].NMName) > len(fn)+1 {
-				fn = cs.Funcs[nmIdx].NMName
+			fn = owner.shortN()
+			if nmIdx >= 0 && len(cs.Funcs[nmIdx].nmN()) > len(fn)+1 {
+				fn = cs.Funcs[nmIdx].nmN()
 			}
 			if owner.Inlined != "-" {
 				inl = owner.Inlined
@@ -381,7 +538,7 @@ func (cs *c13SymCase) expect(c *Ctx, bias, x uint64) (fn, inl string, owner *c13
 		}
 	default:
 		if owner != nil {
-			fn = owner.NMName
+			fn = owner.nmN()
 			if owner.Inlined != "-" {
 				inl = owner.Inlined
 			}
@@ -409,7 +566,7 @@ func (e *c13Env) runSymHist(cs *c13SymCase) {
 		defer os.Setenv("PATH", old)
 	}
 	file := s.writeObject(e, cs, "")
-	defer func() { os.Remove(file); os.Remove(file + ".syms") }()
+	defer func() { os.Remove(file); os.Remove(file + ".syms"); os.Remove(file + ".fmt") }()
 	bu := s.newBinutils(cs.Mode)
 	handles := make([]plugin.ObjFile, len(cs.Biases))
 	refs := make([]plugin.ObjFile, len(cs.Biases))
@@ -423,6 +580,7 @@ func (e *c13Env) runSymHist(cs *c13SymCase) {
 		for _, f := range cleanup {
 			os.Remove(f)
 			os.Remove(f + ".syms")
+			os.Remove(f + ".fmt")
 		}
 	}()
 	open := func(b *binutils.Binutils, f string, bias uint64) (plugin.ObjFile, string) {
@@ -449,12 +607,25 @@ func (e *c13Env) runSymHist(cs *c13SymCase) {
 		return true
 	}
 	type symRes struct {
-		fr  []plugin.Frame
-		msg string // panic / error text
+		fr   []plugin.Frame
+		syms []*plugin.Sym
+		msg  string // panic / error text
 	}
 	call := func(lk c13Lookup) (r symRes) {
 		var err error
-		pn := c13Safely(func() { r.fr, err = handles[lk.H].SourceLine(uint64(lk.Addr)) })
+		pn := c13Safely(func() {
+			switch lk.Op {
+			case "symaddr":
+				r.syms, err = handles[lk.H].Symbols(c13NoMatchRx, uint64(lk.Addr-cs.Biases[lk.H]))
+			case "symrx":
+				var rx *regexp.Regexp
+				if rx, err = regexp.Compile(lk.Rx); err == nil {
+					r.syms, err = handles[lk.H].Symbols(rx, 0)
+				}
+			default:
+				r.fr, err = handles[lk.H].SourceLine(uint64(lk.Addr))
+			}
+		})
 		if pn != "" || err != nil {
 			r.msg = fmt.Sprintf("%v %v", pn, err)
 			if r.msg == "" {
@@ -471,8 +642,12 @@ func (e *c13Env) runSymHist(cs *c13SymCase) {
 	check := func(li int, lk c13Lookup, r symRes, one *c13SymCase) bool {
 		bias, x := uint64(cs.Biases[lk.H]), uint64(lk.Addr)
 		if r.msg != "" {
-			c.Violation("C13/symbolizer/"+cs.Mode+"/"+tag+"error", fmt.Sprintf("SourceLine(%#x) at bias %#x: %s", x, bias, r.msg), one)
+			c.Violation("C13/symbolizer/"+cs.Mode+"/"+tag+"error", fmt.Sprintf("%sSourceLine/Symbols(%#x) at bias %#x: %s", lk.Op, x, bias, r.msg), one)
 			return false
+		}
+		if lk.Op != "" {
+			cs.checkSymbols(c, lk, r.syms, tag, one)
+			return true
 		}
 		got, gotInl := c13Frames(r.fr)
 		want, wantInl, owner, nmIdx := cs.expect(c, bias, x)
@@ -482,7 +657,7 @@ func (e *c13Env) runSymHist(cs *c13SymCase) {
 		okDirect := false
 		switch {
 		case owner != nil:
-			okDirect = got == owner.Short || got == owner.NMName
+			okDirect = got == owner.shortN() || got == owner.nmN()
 		case cs.Mode == "nm":
 			var g *c13Func
 			for i := range cs.Funcs {
@@ -491,7 +666,7 @@ func (e *c13Env) runSymHist(cs *c13SymCase) {
 				}
 			}
 			last := cs.Funcs[len(cs.Funcs)-1]
-			okDirect = (g == nil && got == "") || (g != nil && got == g.NMName) || (x-bias >= uint64(last.Start+last.Size) && got == "")
+			okDirect = (g == nil && got == "") || (g != nil && got == g.nmN()) || (x-bias >= uint64(last.Start+last.Size) && got == "")
 		default:
 			okDirect = got == ""
 		}
@@ -511,17 +686,17 @@ func (e *c13Env) runSymHist(cs *c13SymCase) {
 			}
 			on := "<gap>"
 			if owner != nil {
-				on = owner.NMName
+				on = c13Abbrev(owner.nmN())
 			}
 			how := fmt.Sprintf("file opened at %d biases", len(cs.Biases))
 			if cs.Conc > 1 {
 				how += fmt.Sprintf(", lookups issued from %d goroutines on shared handles", cs.Conc)
 			}
-			c.Violation("C13/symbolizer/"+cs.Mode+"/"+tag+kind, fmt.Sprintf("%s chain, %s: SourceLine(%#x) on the handle with bias %#x (link-time %#x, inside %s) names %q", cs.Mode, how, x, bias, x-bias, on, got), one)
+			c.Violation("C13/symbolizer/"+cs.Mode+"/"+tag+kind, fmt.Sprintf("%s chain, %s: SourceLine(%#x) on the handle with bias %#x (link-time %#x, inside %s) names %s", cs.Mode, how, x, bias, x-bias, on, c13Abbrev(got)), one)
 			return true
 		}
 		if got != want || gotInl != wantInl || nmIdx == -2 {
-			c.Disagree("C13/model/symbolizer-"+cs.Mode, fmt.Sprintf("SourceLine(%#x) bias %#x: go=(%q,%q) expected=(%q,%q)", x, bias, got, gotInl, want, wantInl), "correspondence Elf.addrInfo∘relocate + addr2line merge rule ~ binutils SourceLine", one)
+			c.Disagree("C13/model/symbolizer-"+cs.Mode, fmt.Sprintf("SourceLine(%#x) bias %#x: go=(%s,%q) expected=(%s,%q)", x, bias, c13Abbrev(got), gotInl, c13Abbrev(want), wantInl), "correspondence Elf.addrInfo∘relocate + addr2line merge rule ~ binutils SourceLine", one)
 		}
 		// reference: a fresh Binutils instance that only ever sees this bias, on a private copy,
 		// used strictly sequentially
@@ -542,7 +717,7 @@ func (e *c13Env) runSymHist(cs *c13SymCase) {
 			return false
 		}
 		if rg, ri := c13Frames(rfr); rg != got || ri != gotInl {
-			c.Violation("C13/symbolizer/"+cs.Mode+"/"+tag+"history-dependent", fmt.Sprintf("SourceLine(%#x) at bias %#x gives %q after this history but %q on a fresh instance used sequentially", x, bias, got, rg), one)
+			c.Violation("C13/symbolizer/"+cs.Mode+"/"+tag+"history-dependent", fmt.Sprintf("SourceLine(%#x) at bias %#x gives %s after this history but %s on a fresh instance used sequentially", x, bias, c13Abbrev(got), c13Abbrev(rg)), one)
 		}
 		return true
 	}
@@ -640,6 +815,107 @@ func (e *c13Env) runSymHist(cs *c13SymCase) {
 	}
 }
 
+var c13NoMatchRx = regexp.MustCompile(`^\x00nothing matches this$`)
+
+// checkSymbols: ObjFile.Symbols (the `nm -n` parser behind -disasm / weblist).  Direct oracle: a
+// symbol returned for an address contains it — Start ≤ addr, no other table symbol starts in
+// (Start, addr], End is the next distinct start − 1, and its names are names nm prints at Start;
+// for a regexp every symbol returned carries a matching name at its own start with that End.
+// Expectation (exact): the one group holding the address / all groups with a matching name.
+func (cs *c13SymCase) checkSymbols(c *Ctx, lk c13Lookup, got []*plugin.Sym, tag string, one *c13SymCase) {
+	type group struct {
+		start, end uint64
+		names      []string
+	}
+	var groups []group
+	for i := range cs.Funcs {
+		f := &cs.Funcs[i]
+		if n := len(groups); n > 0 && groups[n-1].start == uint64(f.Start) {
+			groups[n-1].names = append(groups[n-1].names, f.nmN())
+			continue
+		}
+		if n := len(groups); n > 0 {
+			groups[n-1].end = uint64(f.Start) - 1
+		}
+		groups = append(groups, group{start: uint64(f.Start), end: ^uint64(0), names: []string{f.nmN()}})
+	}
+	find := func(start uint64) *group {
+		for i := range groups {
+			if groups[i].start == start {
+				return &groups[i]
+			}
+		}
+		return nil
+	}
+	has := func(g *group, n string) bool {
+		for _, x := range g.names {
+			if x == n {
+				return true
+			}
+		}
+		return false
+	}
+	sig := "C13/symbols/" + cs.Mode + "/" + tag
+	desc := func(sy *plugin.Sym) string {
+		n := "[]"
+		if len(sy.Name) > 0 {
+			n = c13Abbrev(sy.Name[0])
+		}
+		return fmt.Sprintf("{%s [%#x,%#x]}", n, sy.Start, sy.End)
+	}
+	var rx *regexp.Regexp
+	addr := uint64(lk.Addr - cs.Biases[lk.H])
+	if lk.Op == "symrx" {
+		rx = regexp.MustCompile(lk.Rx)
+	}
+	c.Res.Hit("sym:" + cs.Mode + "," + lk.Op)
+	nreal := 0
+	for _, sy := range got {
+		if len(sy.Name) == 0 {
+			continue // the parser's empty leading group [0, first start): names nothing
+		}
+		nreal++
+		g := find(sy.Start)
+		switch {
+		case g == nil:
+			c.Violation(sig+"unknown-start", fmt.Sprintf("Symbols returned %s: nm prints no symbol at that start", desc(sy)), one)
+			return
+		case !has(g, sy.Name[0]):
+			c.Violation(sig+"wrong-name", fmt.Sprintf("Symbols returned %s: not a name nm prints at that start", desc(sy)), one)
+			return
+		case sy.End != g.end:
+			c.Violation(sig+"wrong-extent", fmt.Sprintf("Symbols returned %s but the next symbol starts at %#x", desc(sy), g.end+1), one)
+			return
+		case rx == nil && !(sy.Start <= addr && addr <= g.end):
+			c.Violation(sig+"does-not-contain-address", fmt.Sprintf("Symbols(addr %#x) returned %s, which does not contain the address", addr, desc(sy)), one)
+			return
+		case rx != nil && !rx.MatchString(sy.Name[0]):
+			c.Violation(sig+"regexp-mismatch", fmt.Sprintf("Symbols(%q) returned %s", lk.Rx, desc(sy)), one)
+			return
+		}
+	}
+	// exact expectation
+	want := 0
+	for i := range groups {
+		g := &groups[i]
+		if rx == nil {
+			if g.start <= addr && addr <= g.end {
+				want++
+			}
+			continue
+		}
+		for _, n := range g.names {
+			if rx.MatchString(n) {
+				want++
+				break
+			}
+		}
+	}
+	if nreal != want {
+		c.Disagree("C13/model/Symbols-"+cs.Mode, fmt.Sprintf("Symbols(%s %q %#x) returned %d symbols, the nm table has %d matching groups", lk.Op, lk.Rx, addr, nreal, want), "correspondence: findSymbols returns exactly the nm groups that contain the address / match the regexp", one)
+	}
+}
+
 func (e *c13Env) runSymStreams(r *Rng) {
 	c := e.c
 	for _, st := range []struct {
@@ -649,6 +925,18 @@ func (e *c13Env) runSymStreams(r *Rng) {
 		for i, n := 0, st.n*c.Scale; i < n; i++ {
 			cs := genSymCase(r, st.mode)
 			c.Res.Count(fmt.Sprint("symhist ", *cs), len(cs.Funcs) >= 2 && len(cs.Biases) >= 2)
+			e.runSymHist(cs)
+		}
+	}
+	// name-length and output-format adversaries: every length once per run, chains and formats rotate
+	modes := []string{"nm", "a2l", "llvm"}
+	fmtSets := [][]string{nil, {"crlf"}, {"nofinalnl"}, {"blank", "longfile"}, {"crlf", "blank", "nofinalnl"}}
+	for rep := 0; rep < c.Scale; rep++ {
+		for i, n := range c13NameLens {
+			mode := modes[(i+int(c.Seed)+rep)%3]
+			cs := genLongNameCase(r, mode, n, fmtSets[(i+rep+int(c.Seed/3))%len(fmtSets)])
+			c.Res.Count(fmt.Sprint("symhist-long ", *cs), true)
+			c.Res.Hit(fmt.Sprintf("sym:name-length=%d,%s", n, mode))
 			e.runSymHist(cs)
 		}
 	}
